@@ -71,11 +71,6 @@ class Check:
 
     # ------------------------------------------------------------------
     def finish(self):
-        # vacuity guard
-        for rid, mn in self.minima.items():
-            if self.instances.get(rid, 0) < mn:
-                raise AnalysisError(f"rule {rid} matched {self.instances.get(rid, 0)} instance(s), "
-                                    f"fewer than the {mn} confirmed by hand (vacuous pass refused)")
         bad = [o for o in self.obligations if not o["ok"]]
         known = {(f["property"], f["rule"], f["construct"], f["key"]): f for f in self.known.get("findings", [])}
         violations, known_hits = [], []
@@ -89,6 +84,12 @@ class Check:
                 known_hits.append((o, known[k]))
             else:
                 violations.append(o)
+        if not violations:
+            # vacuity guard (only when nothing was reported: a reported violation is never masked)
+            for rid, mn in self.minima.items():
+                if self.instances.get(rid, 0) < mn:
+                    raise AnalysisError(f"rule {rid} matched {self.instances.get(rid, 0)} instance(s), "
+                                        f"fewer than the {mn} confirmed by hand (vacuous pass refused)")
         if self.replay_filter is not None:
             rf = self.replay_filter
             violations = [o for o in violations
